@@ -6,6 +6,7 @@ The tables, primes and accepted names are *regenerated from /repo's source on ev
 changed row, digit or name makes a `decide` fail and the failing row is the replay.
 -/
 import Circomspect.Model.Curve
+import Circomspect.Lemmas.LessThanLemmas
 
 namespace Circomspect.C11
 open Circomspect.Gen Circomspect.Curve
@@ -126,5 +127,36 @@ theorem C11_default_curve : defaultCurve = "BN254" := by decide
 example : flagged .goldilocks "Poseidon" = true ∧ flagged .bls12381 "Poseidon" = false ∧
     flagged .bls12381 "Bits2Point_Strict" = true ∧ flagged .goldilocks "Num2Bits" = false := by decide
 example : rangeChecked .bn254 252 = true ∧ rangeChecked .bn254 253 = false := by decide
+
+/-! ### which `Num2Bits` an input of `LessThan` is checked by (`Model/LessThanPass.lean`, repair ee9259e) -/
+
+/-- an input of `LessThan` is reported unless it is also the input of a component that counts as `Num2Bits(k)` with a known `k`
+    passing the threshold of the curve (`C11_lessthan`: 2^k − 1 ≤ p/2) -/
+theorem C11_lessthan_reported (c : Curve) (ss : List LessThanPass.Stmt) (v : String) :
+    v ∈ LessThanPass.reported c ss ↔ LessThanPass.Input.lessThan v ∈ LessThanPass.inputs ss ∧
+      ¬ ∃ k, LessThanPass.Input.num2bits v (some k) ∈ LessThanPass.inputs ss ∧ rangeChecked c k = true :=
+  LessThanPass.mem_reported c ss v
+
+/-- … and a component counts as `Num2Bits` of some size only if every instantiation that may be this component is a `Num2Bits` of
+    that size: "counts as range-checked by `Num2Bits(k)` only if" -/
+theorem C11_lessthan_component (cs : List (LessThanPass.Key × LessThanPass.Inst)) (k : LessThanPass.Key) (s : Option Nat) (t : String)
+    (h : LessThanPass.getComponent cs k = some (.num2bits s t)) :
+    ∀ e, e ∈ cs → LessThanPass.maybeEqual e.1 k = true → ∃ s', e.2 = .num2bits s' t :=
+  LessThanPass.getComponent_num2bits cs k s t h
+
+/-- the candidates include every instantiation whose access denotes the same component in some execution that agrees with the
+    index values constant propagation knows -/
+theorem C11_lessthan_candidates (a b : LessThanPass.Key) (hn : a.name = b.name) (ca : List SignalAssign.CAcc)
+    (ha : SignalAssign.denotesL a.acc ca) (hb : SignalAssign.denotesL b.acc ca) : LessThanPass.maybeEqual a b = true :=
+  LessThanPass.maybeEqual_complete a b hn ca ha hb
+
+/-- non-vacuity: `nb[i] = Num2Bits(8)` in a loop, `nb[2] = Num2Bits(254)`, `nb[i].in <== a` after the loop, `rb = Num2Bits(8)`,
+    `rb.in <== b`, `lt.in[0] <== a; lt.in[1] <== b`: `a` is reported (the component it feeds may be the wide one), `b` is not -/
+example : LessThanPass.reported .bn254
+    [.inst ⟨"lt", "lt", []⟩ .lessThan, .inst ⟨"nb[i.1]", "nb", [.idx none]⟩ (.num2bits (some 8) "8"),
+     .inst ⟨"nb[2]", "nb", [.idx (some "f2")]⟩ (.num2bits (some 254) "254"), .inst ⟨"rb", "rb", []⟩ (.num2bits (some 8) "8"),
+     .input ⟨"nb[i.1]", "nb", [.idx none]⟩ "in" false "a" none, .input ⟨"rb", "rb", []⟩ "in" false "b" none,
+     .input ⟨"lt", "lt", []⟩ "in" true "a" none, .input ⟨"lt", "lt", []⟩ "in" true "b" none] = ["a"] := by
+  decide
 
 end Circomspect.C11
